@@ -274,3 +274,8 @@ pub(crate) fn io_gate_restore(
         point(Point::IoPolled { n_events });
     }
 }
+
+/// Hasher state for the I/O thread's maps in verification builds: `std`'s default hasher with
+/// fixed keys, so that the order in which several channels (or the consumers of a channel) are
+/// notified, drained or re-registered is the same in every execution of the same schedule.
+pub type FixedState = std::hash::BuildHasherDefault<std::collections::hash_map::DefaultHasher>;
